@@ -1,0 +1,18 @@
+//go:build verif
+
+package vanilla
+
+// Contracts for the deductive checker in /verif (comment-only; compiled only under the verif tag).
+
+// Verifier construction (C15, C01): a verifier of the scheme uses the scheme's variant and the scheme's response
+// sign convention (s = k + e*x or s = k - e*x); the partial-signature verifier used by threshold aggregation is such a
+// verifier with the challenge public key set, and keeps the SAME sign convention.
+//@ func (*Scheme).Verifier
+//@   property C15, C01
+//@   ensures len(opts) == 0 ==> err == nil && result != nil && result.V == s.vr && result.ResponseOperatorIsNegative == s.vr.responseOperatorIsNegative && result.ChallengePublicKey == nil
+//@   loop range(opts)
+//@     invariant true
+//@ func (*Scheme).PartialSignatureVerifier
+//@   property C15, C01
+//@   ensures publicKey == nil ==> err != nil
+//@   ensures err == nil && len(opts) == 0 ==> as(result, *Verifier).V == s.vr && as(result, *Verifier).ResponseOperatorIsNegative == s.vr.responseOperatorIsNegative && as(result, *Verifier).ChallengePublicKey == publicKey
